@@ -20,7 +20,7 @@ def pySet (l : List β) (i : Int) (v : β) : Option (List β) :=
   else if 0 ≤ i + (l.length : Int) then some (l.set (i + (l.length : Int)).toNat v) else none
 
 /-- `range(a, b)` as a list of Python integers -/
-def pyRange (a b : Int) : List Int := (List.range (b - a).toNat).map (fun k => a + (k : Int))
+def pyRange (a b : Int) : List Int := (List.range (b - a).toNat).map (fun (k : Nat) => a + (k : Int))
 
 /-- `xs[lo:]` — a negative bound counts from the end, bounds are clipped -/
 def pySliceFrom (l : List β) (lo : Int) : List β :=
